@@ -4,7 +4,7 @@ import re
 
 from .. import core, racelog
 
-IMPORTS = """From MV Require Import Model.RaceCfg Model.GuardSpec Proofs.RaceSound.
+IMPORTS = """From MV Require Import Model.RaceCfg Model.GuardSpec Model.LockOrder Proofs.RaceSound.
 From MVgen Require Import RaceProg.
 Open Scope N_scope.
 """
@@ -13,11 +13,27 @@ OBLIGATIONS = [
     ("C11_gen_guarded",
      "guarded_ok (N.of_nat (length class_names)) (N.of_nat (length field_names)) rprogram (exempt_of field_names) = true",
      "vm_compute. reflexivity."),
+    ("C11_gen_lock_order",
+     "order_ok (length class_names) (order_edges (all_classes (N.of_nat (length class_names))) rprogram "
+     "(infer_entries (all_classes (N.of_nat (length class_names))) rprogram)) = true",
+     "vm_compute. reflexivity."),
     ("C11_gen_translator_sane",
      "(200 <=? N.of_nat (length rprogram)) = true /\\ (1000 <=? n_accesses) = true /\\ (20 <=? N.of_nat (length class_names)) = true "
      "/\\ forallb (fun e => existsb (String.eqb e) field_names) exempt_fields = true",
      "repeat split; vm_compute; reflexivity."),
 ]
+
+ORDER_REPORT = """From MV Require Import Model.RaceCfg Model.LockOrder.
+From MVgen Require Import RaceProg.
+Open Scope string_scope.
+Definition ncl := N.of_nat (length class_names).
+Definition E := Eval vm_compute in infer_entries (all_classes ncl) rprogram.
+Definition edges := Eval vm_compute in strict_edges (order_edges (all_classes ncl) rprogram E).
+Definition named := Eval vm_compute in map (fun e => (nth (N.to_nat (fst e)) class_names "?", nth (N.to_nat (snd e)) class_names "?")) edges.
+Print named.
+Definition cyc := Eval vm_compute in map (fun e => nth (N.to_nat (fst e)) class_names "?") (cycles (length class_names) edges).
+Print cyc.
+"""
 
 REPORT = """From MV Require Import Model.RaceCfg Model.GuardSpec.
 From MVgen Require Import RaceProg.
@@ -178,6 +194,22 @@ def run(res):
                           % (fld, guard, "; ".join(sites)[:600]),
                           {"field": fld, "guard_held_by_the_other_accesses": guard, "unguarded_accesses": sites, "theorem": "C11_gen_guarded (guarded_ok = true)",
                            "how": "bin/check C11 regenerates the skeleton with harness/cmd/go2race and re-evaluates guarded_ok"})
+    if any(n == "C11_gen_lock_order" for n, _ in failed):
+        p = os.path.join(core.WORK, "C11", "report_order.v")
+        open(p, "w").write(ORDER_REPORT)
+        rc, out, err, dt = core.coqc_file(p, extra=["-Q", gd, "MVgen"], timeout=900)
+        txt = re.sub(r"\s+", " ", out)
+        m = re.search(r"cyc = \[(.*?)\]", txt)
+        cyc = re.findall(r'"([^"]+)"', m.group(1)) if m else []
+        m = re.search(r"named = \[(.*?)\] :", txt)
+        edges = re.findall(r'\("([^"]+)", "([^"]+)"\)', m.group(1)) if m else []
+        rel = [e for e in edges if e[0] in cyc and e[1] in cyc]
+        found += 1
+        res.violation("static:lock-order:" + "+".join(sorted(cyc))[:200],
+                      "lock-order cycle: the mutex classes %s are acquired in both orders (nested acquisitions, directly or through calls: %s); two goroutines taking "
+                      "them in opposite orders at the same time block each other for ever" % (", ".join(cyc), "; ".join("%s held while taking %s" % e for e in rel)[:600]),
+                      {"classes_on_a_cycle": cyc, "nested_acquisitions": rel, "theorem": "C11_gen_lock_order (order_ok = true); Props/C11.v C11_lock_order_no_cycle",
+                       "how": "bin/check C11 regenerates the skeleton with harness/cmd/go2race and re-evaluates Model/LockOrder.order_ok"}, found_input=False)
     # ---- dynamic: race detector matrix ----
     raceout = os.path.join(core.WORK, "bin", "c11-race")
     core.go_build("c11", race=True, out=raceout)
@@ -214,6 +246,8 @@ def run(res):
             res.violation("scenario:" + s[0], "scenario %s could not be set up: %s" % s, {"scenario": s}, found_input=False)
     for n, e in failed:
         if n == "C11_gen_guarded" and static_fields:
+            continue
+        if n == "C11_gen_lock_order" and any(sig.startswith("static:lock-order") for sig, _, _, _ in res.violations):
             continue
         res.violation("obligation:" + n, "generated obligation %s no longer checks against the skeleton regenerated from /repo" % n,
                       {"theorem": n, "coqc": e, "translator": "harness/cmd/go2race"}, found_input=(found > 0))
